@@ -157,6 +157,13 @@ func addMisc(e *Engine, m map[string]intrinsic) {
 	m["github.com/openconfig/ygot/util.DbgErr"] = func(p *Path, fr *frame, args []value) value { return args[0] }
 	m["github.com/kr/pretty.Sprint"] = func(p *Path, fr *frame, args []value) value { return "" }
 	m["github.com/kr/pretty.Sprintf"] = func(p *Path, fr *frame, args []value) value { return "" }
+	m["github.com/kylelemons/godebug/pretty.Sprint"] = func(p *Path, fr *frame, args []value) value { return "" }
+	m["github.com/kylelemons/godebug/pretty.Compare"] = func(p *Path, fr *frame, args []value) value { return "" }
+	m["github.com/openconfig/ygot/util.ValueStrDebug"] = func(p *Path, fr *frame, args []value) value { return "" }
+	m["github.com/openconfig/ygot/util.ValueStr"] = func(p *Path, fr *frame, args []value) value { return "" }
+	m["github.com/openconfig/ygot/util.SchemaTypeStr"] = func(p *Path, fr *frame, args []value) value { return "" }
+	m["github.com/openconfig/ygot/util.YangTypeToDebugString"] = func(p *Path, fr *frame, args []value) value { return "" }
+	m["github.com/openconfig/ygot/util.DataSchemaTreesString"] = func(p *Path, fr *frame, args []value) value { return "" }
 	// proto.Clone: structural deep copy of the message struct (stub; see DESIGN 2.6)
 	clone := func(p *Path, fr *frame, args []value) value {
 		it := args[0].(iface)
